@@ -230,3 +230,67 @@ func VS_C01_paused_no_spin() {
 	vrtThread("sender0", func() { mb.Enqueue(g.tokens[0]); g.enq[0] = 1 })
 	vhRegisterCommon(g, mb, 1)
 }
+
+// vhSeqHandler records the order of handling and whether the mailbox was
+// paused when a user message entered the handler.
+type vhSeqHandler struct {
+	mb           *UnboundedMailbox
+	handled      []int
+	whilePaused  int
+	pauseAt      int
+	inFlight     int
+	maxInFlight  int
+}
+
+func (h *vhSeqHandler) HandleEnvelop(e vivid.Envelop) {
+	t := e.(*vhTok)
+	h.inFlight++
+	if h.inFlight > h.maxInFlight {
+		h.maxInFlight = h.inFlight
+	}
+	if !t.sys && h.mb.IsPaused() {
+		h.whilePaused++
+	}
+	h.handled = append(h.handled, t.id)
+	if t.id == h.pauseAt {
+		h.mb.Pause()
+	}
+	h.inFlight--
+}
+
+// VH_C01_pause_with_backlog (Engine A, sequential): a LARGE backlog of n user
+// messages (n around the powers of two up to 130, so that any batching
+// threshold inside the consumer is crossed) waits in a paused mailbox; after
+// Resume the handler of message k (symbolic) pauses the mailbox again. Exactly
+// the messages 0..k are handled, none while paused; after the next Resume the
+// rest follows, everything exactly once and in order.
+func VH_C01_pause_with_backlog() {
+	sizes := []int{2, 9, 17, 33, 63, 64, 65, 100, 130}
+	n := sizes[vrtChoose(len(sizes))]
+	h := &vhSeqHandler{pauseAt: -1}
+	mb := NewUnboundedMailbox(4, h)
+	h.mb = mb
+	mb.Pause()
+	for i := 0; i < n; i++ {
+		mb.Enqueue(&vhTok{id: i})
+	}
+	vrtYield()
+	vrtAssert(len(h.handled) == 0, "paused-user-messages-wait")
+	k := vrtChoose(n)
+	h.pauseAt = k
+	mb.Resume()
+	vrtYield()
+	vrtAssert(len(h.handled) == k+1, "no-user-message-handled-after-the-handler-paused")
+	vrtAssert(h.whilePaused == 0, "no-user-message-handled-while-paused")
+	h.pauseAt = -1
+	mb.Resume()
+	vrtYield()
+	vrtAssert(len(h.handled) == n, "every-accepted-message-handled-exactly-once")
+	for i := 0; i < n && i < len(h.handled); i++ {
+		vrtAssert(h.handled[i] == i, "handled-in-enqueue-order")
+	}
+	vrtAssert(h.maxInFlight == 1, "at-most-one-handler-in-flight")
+	if n >= 64 {
+		vrtReach("large-backlog")
+	}
+}
